@@ -65,11 +65,61 @@ func recvNonNilAt(f *ssa.Function, b *ssa.BasicBlock) bool {
 // ndOpenAt: block b is dominated by the branch where f.nd != nil.
 func ndOpenAt(f *ssa.Function, b *ssa.BasicBlock) bool {
 	for _, fa := range factsAt(b) {
-		if x, isNil, ok := nilTest(fa); ok && !isNil && isRecvFieldLoad(f, x, "nd") {
+		x, isNil, ok := nilTest(fa)
+		if !ok {
+			continue
+		}
+		if !isNil && isRecvFieldLoad(f, x, "nd") {
 			return true
+		}
+		// `if err := f.checkOpen(op); err != nil { return err }`: an unexported validator of the same handle that
+		// returns nil only where the handle is open
+		if isNil {
+			if c, isCall := strip(resolve1(x)).(*ssa.Call); isCall {
+				g := c.Call.StaticCallee()
+				if g != nil && g.Pkg == f.Pkg && !isEntryPoint(g) && len(c.Call.Args) > 0 && len(f.Params) > 0 && strip(c.Call.Args[0]) == ssa.Value(f.Params[0]) && validatesOpen(g) {
+					return true
+				}
+			}
 		}
 	}
 	return false
+}
+
+// validatesOpen: g(handle, ...) error returns a possibly-nil error only on paths where handle.nd != nil was established.
+func validatesOpen(g *ssa.Function) bool {
+	if len(g.Blocks) == 0 || g.Signature.Results().Len() != 1 || !isErrorType(g.Signature.Results().At(0).Type()) || len(g.Params) == 0 {
+		return false
+	}
+	n := 0
+	for _, r := range returnsOf(g) {
+		mayBeNil := false
+		for _, v := range resolveRaw(r.Results[0]) {
+			if isNilConst(strip(v)) {
+				mayBeNil = true
+			} else if _, isAlloc := strip(v).(*ssa.Alloc); !isAlloc {
+				if _, isMI := v.(*ssa.MakeInterface); !isMI {
+					if ld, isLd := strip(v).(*ssa.UnOp); !isLd || ld.Op != token.MUL {
+						mayBeNil = true // an error value we cannot see to be non-nil
+					}
+				}
+			}
+		}
+		if !mayBeNil {
+			continue
+		}
+		n++
+		open := false
+		for _, fa := range factsAt(r.Block()) {
+			if x, isNil, ok := nilTest(fa); ok && !isNil && isRecvFieldLoad(g, x, "nd") {
+				open = true
+			}
+		}
+		if !open {
+			return false
+		}
+	}
+	return n > 0
 }
 
 func isRecvFieldLoad(f *ssa.Function, v ssa.Value, field string) bool {
@@ -133,6 +183,16 @@ func c02Guard(rc *RuleCtx) {
 				}
 				nonNil := true
 				for _, v := range resolveRaw(r.Results[ei]) {
+					// `if err != nil { return err }`: the returned value is known to be non-nil on this branch
+					known := false
+					for _, fa := range factsAt(r.Block()) {
+						if x, isNil, ok := nilTest(fa); ok && !isNil && (x == v || resolve1(x) == v || strip(resolve1(x)) == strip(v)) {
+							known = true
+						}
+					}
+					if known {
+						continue
+					}
 					for _, l := range errLeaves(rc.C, v, 0) {
 						if !l.nonNil {
 							nonNil = false
